@@ -495,6 +495,7 @@ pub fn run_case(
     w.input_len = bytes.len() as u64;
     drivers::take_overrun();
     drivers::take_driver_panic();
+    drivers::take_disagreement();
     let r = vcore::guard(|| exec(seed, bytes, &seed.ctx, cfg, &mut w));
     let mut sub_case = String::new();
     let r = match (r, drivers::take_driver_panic()) {
@@ -506,6 +507,15 @@ pub fn run_case(
     };
     match r {
         Ok(()) => {
+            if let Some((what, detail)) = drivers::take_disagreement() {
+                if cfg.mode == Mode::C01 {
+                    return Err((
+                        "impure".into(),
+                        format!("impure {} [{}]", what, seed.target_name()),
+                        format!("{what}: {detail} (on {} bytes)", bytes.len()),
+                    ));
+                }
+            }
             if let Some(o) = drivers::take_overrun() {
                 if cfg.mode == Mode::C01 {
                     return Err((
